@@ -1608,10 +1608,16 @@ def crash_sweep(ctx: Ctx, v: LocalView, rule: str) -> int:
                 fs = cs.FS({**base_dirs, new_blob: ("file", "new"), old_blob: ("file", "old"), **init})
                 pa = cs.Proc("killed writer", steps, envA)
                 trace = []
-                for _ in range(i):
-                    trace.append(repr(pa.steps[pa.pc]))
-                    sim.step(pa, fs)
-                msg = cs.path_view(fs, L, envA, [old_blob, new_blob], must_exist=bool(init))
+                msg = None
+                try:
+                    for _ in range(i):
+                        trace.append(repr(pa.steps[pa.pc]))
+                        sim.step(pa, fs)
+                except cs.Failure as f0_:
+                    # the writer itself fails before it is killed (a step of its own sequence cannot run on the state it built)
+                    msg = f"the writer fails on its own: {f0_.what}"
+                if msg is None:
+                    msg = cs.path_view(fs, L, envA, [old_blob, new_blob], must_exist=bool(init))
                 if msg is None:
                     for (pid, uid, who) in (("2", "b", "a recovery process"), ("1", "b", "a recovery process that got the pid of the killed one")):
                         fs2 = fs.clone()
